@@ -23,6 +23,7 @@ REQUIRED_PROBES = ["coarsener_init", "greedy_prune"]
 REQUIRED_FEATURES = ["sched:sequential", "sched:pool", "sched:functor:reverse_eval_map", "sched:functor:eager_map",
                      "k>bins-of-every-chromosome", "chunksize:1", "algebra:chain", "algebra:merge-commute",
                      "mode:square", "mode:symm", "agg:max", "coarsen:spans>1", "family:variable", "family:trap",
+                     "counts:float-fractional", "agg:mean+dtype:float", "via:cli-coarsen:field-dtype+agg", "sums:beyond-int32",
                      "family:coarse_trap", "via:cli-coarsen", "family:giant_variable",
                      "family:fixed_exact:odd-width"]
 SHARD_TIMEOUT = {"quick": 1800, "thorough": 7200}
@@ -105,9 +106,13 @@ def one_base(ctx, shard, i, rng):
     if not P and rng.random() < 0.7:
         P = gen.gen_pixels(rng, n, symm, "sparse70")
     E = {kk: float(int(rng.integers(-80, 80))) / 8.0 for kk in P} if two else None
+    float_counts = bool(rng.random() < 0.3)          # fractional (dyadic) counts stored as float64
+    if float_counts:
+        P = {kk: (v + float(int(rng.integers(1, 8))) / 8.0 if v else 0.0) for kk, v in P.items()}
     d = ctx.newdir()
     base = os.path.join(d, "base.cool")
-    make_cooler(base, bt, P, symm=symm, extra={"score": E} if two else None)
+    make_cooler(base, bt, P, symm=symm, extra={"score": E} if two else None,
+                count_dtype=np.float64 if float_counts else None)
     maxb = max(len(e) - 1 for _, e in bt)
     minb = min(len(e) - 1 for _, e in bt)
     rowlen = max([sum(1 for kk in P if kk[0] == r) for r in range(n)] or [1])
@@ -146,6 +151,8 @@ def one_base(ctx, shard, i, rng):
                     c.feature("k>bins-of-some-chromosome")
                 if agg:
                     c.feature("agg:max")
+                if float_counts:
+                    c.feature("counts:float-fractional")
                 cols = ["count", "score"] if two else None
                 if kind == "sequential" and x == 2:
                     from click.testing import CliRunner
@@ -158,11 +165,12 @@ def one_base(ctx, shard, i, rng):
                     if r.exit_code != 0:
                         raise (r.exception or RuntimeError(r.output[-300:]))
                 elif kind == "sequential" and x == 1:
-                    cooler.coarsen_cooler(base, out, k, chunksize=cs, nproc=1, columns=cols, agg=agg, dtypes={"count": np.int64})
+                    odt = np.float32 if float_counts else np.int64
+                    cooler.coarsen_cooler(base, out, k, chunksize=cs, nproc=1, columns=cols, agg=agg, dtypes={"count": odt})
                     c.feature("sched:sequential", "option:dtypes-override")
                     with h5py.File(out, "r") as f:
-                        c.check(str(f["pixels/count"].dtype) == "int64", "coarsen-dtypes-override-ignored",
-                                f"dtypes={{'count': int64}} requested but count is stored as {f['pixels/count'].dtype}")
+                        c.check(f["pixels/count"].dtype == np.dtype(odt), "coarsen-dtypes-override-ignored",
+                                f"dtypes={{'count': {np.dtype(odt).name}}} requested but count is stored as {f['pixels/count'].dtype}")
                 elif kind == "sequential":
                     cooler.coarsen_cooler(base, out, k, chunksize=cs, nproc=1, columns=cols, agg=agg)
                     c.feature("sched:sequential")
@@ -190,7 +198,7 @@ def one_base(ctx, shard, i, rng):
                     c.feature(f"sched:functor:{name}")
                     it = CoolerCoarsener(base, k, cs, columns=["count", "score"] if two else ["count"], agg=agg,
                                          batchsize=int([1, 2, 5][int(rng.integers(3))]), map=fn)
-                    dt = {"count": np.int32}
+                    dt = {"count": np.float64 if float_counts else np.int32}
                     if two:
                         dt["score"] = np.float64
                     create(out, it.new_bins, it, columns=cols, dtypes=dt, symmetric_upper=symm,
@@ -210,6 +218,67 @@ def one_base(ctx, shard, i, rng):
                             "family": fam}, limit=5)
             if os.path.exists(out):
                 os.remove(out)
+    # ------------------------------------------------ requested aggregate together with a requested dtype
+    cid = f"c:{shard['sub']}:{i}:mean"
+    if ctx.want(cid) and P:
+        k = ks[int(rng.integers(len(ks)))]
+        cs = chunks[int(rng.integers(len(chunks)))]
+        out = os.path.join(d, "mean.cool")
+        via_cli = bool(rng.random() < 0.5)
+        with ctx.case(cid, dict(base_desc, factor=k, chunksize=cs, agg={"count": "mean"}, dtypes={"count": "float64"},
+                                via="cli" if via_cli else "api")) as c:
+            c.feature("agg:mean+dtype:float", "via:cli-coarsen:field-dtype+agg" if via_cli else "via:api")
+            if via_cli:
+                from click.testing import CliRunner
+                from cooler.cli import cli
+                spec = "count:dtype=float64,agg=mean" if rng.random() < 0.5 else "count:agg=mean,dtype=float64"
+                r = CliRunner().invoke(cli, ["coarsen", base, "-k", str(k), "-c", str(cs), "-o", out, "--field", spec])
+                if r.exit_code != 0:
+                    raise (r.exception or RuntimeError(r.output[-300:]))
+            else:
+                cooler.coarsen_cooler(base, out, k, chunksize=cs, agg={"count": "mean"}, dtypes={"count": np.float64})
+            keys, cols = read_pixels_raw(out, "/", ("count",))
+            want = model.ref_coarsen(bt, P, k, "mean")
+            wk = sorted(want)
+            if c.check(keys == wk, "coarse-pixel-set-differs", "[mean] coarsened pixel set != block aggregation"):
+                got = cols["count"]
+                c.check(got.dtype == np.float64 and bool(np.allclose(got, [want[x] for x in wk], rtol=1e-12, atol=0)),
+                        "coarse-values-differ:mean-with-float-dtype",
+                        f"coarsen by {k} with agg mean and dtype float64: stored values are not the block means",
+                        lambda: {"got": got.tolist()[:20], "want": [want[x] for x in wk][:20], "dtype": str(got.dtype)})
+            if nontriv:
+                c.nontrivial(repr(bt), repr(sorted(P.items())), k, cs, "mean")
+    # ------------------------------------------------ block sums beyond the range of the stored integer type
+    cid = f"c:{shard['sub']}:{i}:wide"
+    if ctx.want(cid) and n >= 2 and (shard["sub"] + i) % 3 == 0:
+        big = os.path.join(d, "big.cool")
+        Pb = {kk: int(2**30 + int(rng.integers(0, 2**29))) for kk in list(gen.gen_pixels(rng, n, symm, "dense"))}
+        make_cooler(big, bt, Pb, symm=symm)
+        k = 2
+        want = model.ref_coarsen(bt, Pb, k)
+        with ctx.case(cid, dict(base_desc, factor=k, case="block sums >= 2**31 on an int32 column", pixels=None)) as c:
+            if max(want.values()) >= 2**31:
+                c.feature("sums:beyond-int32")
+                for dts in ({"count": np.int64}, None):
+                    out = os.path.join(d, f"wide_{'i64' if dts else 'default'}.cool")
+                    raised = None
+                    try:
+                        cooler.coarsen_cooler(big, out, k, chunksize=int([3, 10**7][int(rng.integers(2))]), dtypes=dts)
+                    except (ValueError, OverflowError) as e:
+                        raised = f"{type(e).__name__}: {e}"
+                    if dts is not None:
+                        c.check(raised is None, "coarsen-int64-requested-but-refused", f"dtypes=int64 run raised {raised}")
+                    if raised is None:
+                        keys, cols = read_pixels_raw(out, "/", ("count",))
+                        wk = sorted(want)
+                        c.check(keys == wk and [int(x) for x in cols["count"].tolist()] == [want[x] for x in wk],
+                                "coarse-values-differ:sum-beyond-int32:" + ("int64-requested" if dts else "default-dtype-silent"),
+                                f"block sums of up to {max(want.values())} were stored as different values without an error "
+                                f"(dtypes={'int64' if dts else 'default'})",
+                                lambda: {"got": cols["count"].tolist()[:10], "want": [want[x] for x in wk][:10]})
+                    else:
+                        c.feature("sums:beyond-int32:refused-with-error")
+                c.nontrivial(repr(bt), "wide", repr(sorted(Pb.items())[:20]))
     # ------------------------------------------------ algebra
     fw = gen.bt_fixed_width(bt)
     cid = f"c:{shard['sub']}:{i}:chain"
